@@ -461,13 +461,18 @@ func (a *natsKeyValueAdapter) Watch(key string, opts ...interface{}) (Watcher, e
 	if err != nil {
 		return nil, err
 	}
-	return &natsWatcherAdapter{watcher: natsWatcher}, nil
+	return &natsWatcherAdapter{watcher: natsWatcher, done: make(chan struct{})}, nil
 }
 
 type natsWatcherAdapter struct {
 	watcher   nats.KeyWatcher
 	once      sync.Once
 	entryChan chan Entry
+
+	// done is closed by Stop: the forwarding goroutine must not stay parked on
+	// a send to a consumer that has left with events unread.
+	stopOnce sync.Once
+	done     chan struct{}
 }
 
 // Updates returns the channel on which the watcher's events are delivered. It
@@ -481,10 +486,14 @@ func (a *natsWatcherAdapter) Updates() <-chan Entry {
 		go func() {
 			defer close(a.entryChan)
 			for natsEntry := range a.watcher.Updates() {
+				var entry Entry
 				if natsEntry != nil {
-					a.entryChan <- &natsEntryAdapter{entry: natsEntry}
-				} else {
-					a.entryChan <- nil
+					entry = &natsEntryAdapter{entry: natsEntry}
+				}
+				select {
+				case a.entryChan <- entry:
+				case <-a.done:
+					return
 				}
 			}
 		}()
@@ -493,6 +502,7 @@ func (a *natsWatcherAdapter) Updates() <-chan Entry {
 }
 
 func (a *natsWatcherAdapter) Stop() {
+	a.stopOnce.Do(func() { close(a.done) })
 	_ = a.watcher.Stop()
 }
 
